@@ -3,6 +3,7 @@
 package c08
 
 import (
+	"html/template"
 	"strconv"
 
 	plush "github.com/gobuffalo/plush/v5"
@@ -495,6 +496,7 @@ func init() {
 	vrt.Register("C08_generated_bodies", GeneratedBodies)
 	vrt.Register("C08_element_kinds", ElementKinds)
 	vrt.Register("C08_iterable_expressions", IterableExpressions)
+	vrt.Register("C08_exit_inside_helper_block", ExitInsideHelperBlock)
 }
 
 func GeneratedBodies() {
@@ -604,5 +606,49 @@ func IterableExpressions() {
 	got, err := plush.Render(in, ctx)
 	vrt.Assert(err == nil, "a loop over an iterable written as any expression renders: "+it)
 	vrt.Assert(got == "[("+itoa(a)+")("+itoa(b)+")]", "the body is rendered once per element of the value of the iterable expression: "+it)
+	vrt.Cover("done")
+}
+
+// ---- break / continue "are accepted anywhere inside a loop body, however nested":
+// here inside the block of a helper that is called in the loop body. plush accepts
+// them and the block ends there (the helper receives what the block rendered so
+// far), but the exit does not travel through the Go helper: the iteration goes on
+// after the helper call. A recorded finding (known_findings.json, DESIGN.md 6.2):
+// the first assertion bounds what is tolerated to exactly that behaviour, the
+// second states the property.
+func wrapBlk(help plush.HelperContext) (template.HTML, error) {
+	s, err := help.Block()
+	return template.HTML(s), err
+}
+
+func ExitInsideHelperBlock() {
+	x := vrt.Int()
+	ctx := plush.NewContext()
+	ctx.Set("x", x)
+	ctx.Set("wrap", wrapBlk)
+	X := itoa(x)
+	exits := []string{"break", "continue"}
+	e := vrt.Choice(2)
+	var in, want, plushNow string
+	switch vrt.Choice(3) {
+	case 0:
+		in = "<%= for (v) in [1, 2] { %><%= wrap() { %>A<%= x %><% " + exits[e] + " %>B<% } %>C<% } %>"
+		want = []string{"A" + X, "A" + X + "A" + X}[e]
+		plushNow = "A" + X + "CA" + X + "C"
+	case 1:
+		in = "<%= for (v) in [1, 2] { %><%= wrap() { %><%= if (v == 1) { %>A<% " + exits[e] + " %><% } %>B<% } %>C<% } %>"
+		want = []string{"A", "ABC"}[e]
+		plushNow = "ACBC"
+	default: // control: outside a helper block the same exits work
+		in = "<%= for (v) in [1, 2] { %>A<%= x %><% " + exits[e] + " %>B<% } %>"
+		want = []string{"A" + X, "A" + X + "A" + X}[e]
+		plushNow = want
+	}
+	vrt.Note("input", in)
+	got, err := plush.Render(in, ctx)
+	vrt.Note("got", got)
+	vrt.Assert(err == nil, "break / continue inside the block of a helper in a loop body are accepted")
+	vrt.Assert(got == want || got == plushNow, "an exit inside a helper's block ends the iteration / the loop, or (plush) only the block; nothing else")
+	vrt.Assert(got == want, "break / continue inside the block of a helper called in a loop body end the loop / the iteration")
 	vrt.Cover("done")
 }
